@@ -1164,3 +1164,15 @@ Proof.
   - intros id Hid. rewrite (blocks_extract_spec spec_locate range_extract (fun b => b) (fun b => b) B Hok HBne Hs' Hl1 id Hid), Hv. reflexivity.
   - rewrite <- Hv. apply (blocks_table_spec spec_locate range_extract (fun b => b) (fun b => b) B Hok HBne Hs' Hl1 Hl2).
 Qed.
+
+(* an object built from an EMPTY input has no parts: v.size() - 1 wraps and locate indexes
+   parts[2^64-1] (outside every property's quantifier: valid sets are non-empty) *)
+Theorem blocks_locate_empty_oob q : model_blocks_locate 5 [] q = None.
+Proof.
+  (* no evaluation of nthN at 2^64-1: N.to_nat of that index is never computed *)
+  unfold model_blocks_locate, blocks_locate.
+  change (bd_samples (spec_bdict 5 [])) with (@nil str).
+  change (bd_parts (spec_bdict 5 [])) with (@nil (list str)).
+  change (bsbi lex_compare [] q) with (Some (sub_sz 0 1)).
+  unfold nthN. destruct (N.to_nat (sub_sz 0 1)); reflexivity.
+Qed.
